@@ -5,7 +5,7 @@ From Coq Require Import List Arith ZArith Bool Sorted.
 Import ListNotations.
 Require Import Base.C11_Unique Model.C11_Topo Proofs.C11_TopoProofs.
 Require Import Model.C04_Dofs Proofs.C04_DofsProofs Gen.C04Gen Dyn.C04Tie.
-Require Import Model.C07_Query Proofs.C07_QueryProofs Gen.C07Gen Dyn.C07Tie.
+Require Import Model.C07_Query Proofs.C07_QueryProofs Proofs.C07_TraceProofs Gen.C07Gen Dyn.C07Tie.
 
 (* Facet query: flatten() is the strictly sorted list of EXACTLY the numbers that decode (C04) to a component k that is not
    skipped of: a vertex of a selected facet, an edge of a selected facet (3-D, via f2e), or a selected facet. *)
@@ -89,11 +89,17 @@ Print Assumptions C07_facet_selectors_agree.
 Theorem C07_collection_is_sorted_union :
   forall n dflt all_ok tags (l : list sel) (r : list nat),
     normalize n dflt all_ok tags (SColl l) = Some r ->
-    l <> [] /\ StronglySorted (lt Nat.compare) r /\
+    StronglySorted (lt Nat.compare) r /\
     (forall s, In s l -> exists a, normalize n dflt all_ok tags s = Some a) /\
     (forall x, In x r <-> exists s a, In s l /\ normalize n dflt all_ok tags s = Some a /\ In x a).
 Proof. exact normalize_coll. Qed.
 Print Assumptions C07_collection_is_sorted_union.
+
+(* the empty list / tuple / set is a valid selector and denotes the empty set *)
+Theorem C07_empty_collection_is_empty :
+  forall n dflt all_ok tags, normalize n dflt all_ok tags (SColl []) = Some [].
+Proof. exact normalize_empty_coll. Qed.
+Print Assumptions C07_empty_collection_is_empty.
 
 (* name filters are intersections: keep / drop / all restrict the rows, never the entities; __or__ unites the entities *)
 Theorem C07_name_filters_are_intersections :
@@ -137,6 +143,48 @@ Theorem C07_dictionaries_by_name :
        forall d, In d l <-> exists r j, In r rows /\ nth (r + off) dofnames 0 = n /\ In j ix /\ d = nth j (nth r blk []) 0).
 Proof. exact by_name_spec. Qed.
 Print Assumptions C07_dictionaries_by_name.
+
+(* trace support.  For a cell e one of whose local facets is a selected facet, let tr r be the trace on that local facet of the local
+   basis function r (value, normal or tangential component as appropriate: C03's trace quantities, any semiring-like carrier), and
+   att the (kind, local slot) pairs attached to the closure of the local facet.  GIVEN C03's trace lemma (tr r = 0 unless row r belongs
+   to an attached slot) and the connectivity fact that the entity of an attached slot of e is a vertex of / an edge of / a selected
+   facet (C11: t2f_slotwise, f2e), the trace of sum_d w(d) phi_d seen from e is the same for all coefficient vectors that agree on the
+   DOFs returned by the facet query: it depends on no DOF outside the returned set. *)
+Theorem C07_trace_support :
+  forall (A : Type) (zero : A) (add mul : A -> A -> A), (forall x, mul x zero = zero) ->
+  forall dim nd ed fd id nv ne nf nt t t2e t2f, wf dim fd nv ne nf nt t t2e t2f ->
+  forall dofnames offs facets f2e dim3 F,
+    (forall f, In f F -> f < nf) -> (forall f v, In f F -> In v (nth f facets []) -> v < nv) ->
+    (forall row f, In row f2e -> In f F -> nth f row 0 < ne) ->
+  forall e, e < nt -> forall (tr : nat -> A) (att : kind -> nat -> bool),
+    let D := gen_dofs_init dim nd ed fd id 0 nv ne nf nt t t2e t2f in
+    (forall r, r < length (D_element D) ->
+       tr r = zero \/ exists kd s' k, s' < nslots t t2e t2f kd /\ k < cnt dim nd ed fd id kd /\
+                                      r = rowpos dim nd ed fd t t2e t2f kd s' k /\ att kd s' = true) ->
+    (forall kd s', att kd s' = true -> s' < nslots t t2e t2f kd ->
+       facet_selected facets f2e dim3 F kd (slot_ent t t2e t2f kd s' e)) ->
+    forall w w' : nat -> A,
+      (forall d, In d (flatten D (get_facet_dofs D dofnames offs nd ed fd facets f2e dim3 F [])) -> w d = w' d) ->
+      trace A zero add mul dim nd ed fd id nv ne nf nt t t2e t2f e tr w
+      = trace A zero add mul dim nd ed fd id nv ne nf nt t t2e t2f e tr w'.
+Proof.
+  intros A zero add mul Hm dim nd ed fd id nv ne nf nt t t2e t2f Hwf dofnames offs facets f2e dim3 F BF Bv Be e He tr att D.
+  unfold D. rewrite gen_dofs_init_is_model. intros H1 H2 w w' Hag.
+  exact (trace_support A zero add mul Hm dim nd ed fd id nv ne nf nt t t2e t2f Hwf dofnames offs facets f2e dim3 F BF Bv Be
+           e He tr att H1 H2 w w' Hag).
+Qed.
+Print Assumptions C07_trace_support.
+
+(* re-tagging (Mesh.with_boundaries / with_subdomains, shape re-checked by ast): a name defined again denotes the NEW set, every other
+   name keeps its set; so after any history of definitions a tag name selects what its LAST definition says — the name, the index
+   array and the predicate it was last defined by denote the same entities *)
+Theorem C07_retagging_last_definition_wins :
+  (forall old new k, tag_lookup (with_tags old new) k
+                     = match tag_lookup new k with Some v => Some v | None => tag_lookup old k end) /\
+  (forall hist new k, tag_lookup (tag_history (hist ++ [new])) k
+                      = match tag_lookup new k with Some v => Some v | None => tag_lookup (tag_history hist) k end).
+Proof. split; [exact with_tags_lookup | exact tag_history_last]. Qed.
+Print Assumptions C07_retagging_last_definition_wins.
 
 (* the argument-free query selects the boundary facets of C11 (exactly the facets with a single neighbour), and the complement
    query is the set complement in [0, N) *)
